@@ -27,6 +27,9 @@ COMBOS = [
     ("ben15-5.diff", "chart.py", r"yield curr_header_tag, curr_first_line_index, i - 1", "yield curr_header_tag, curr_first_line_index, i", ["C06", "C02"]),
     # constructor reached through a parameter annotated type[C]
     ("ben15-3.diff", "track.py", r"return bpm_events_type\(events=events, resolution=resolution\)", "return bpm_events_type(events=events[:1] + events[1:], resolution=resolution)", []),
+    # helper whose fall-through result is `hi - 1` (T1b): the guard that makes the range non-empty is part of what is proved
+    ("ben14-2.diff", "instrument.py", r"if proximal_star_power_event_index >= len\(star_power_events\):", "if proximal_star_power_event_index > len(star_power_events):", ["C05", "C18"]),
+    ("ben14-2.diff", "instrument.py", r"return len\(star_power_events\) - 1", "return len(star_power_events) - 2", ["C05"]),
     # "find the first ... or None" helper followed by the test of its result (T3)
     ("ben19-5.diff", "track.py", r"(?m)^        return t, data$", "        return types[0], data", ["C14", "C02"]),
     # a private generator fused into the loop that consumes it
